@@ -2,19 +2,13 @@
    fourpoint.py, charges.py and from the read-only graph methods of PauliStringCollection / PauliString (get_size, get_pair,
    get_anticommutation_pair, get_anticommutation_fraction, get_commutants, get_graph, get_commutator_graph; PauliString.get_commutants)
    are equal to the hand-written models Model/Graph.v and Model/Orbit.v about which the C14 and C15 theorems are stated. *)
-From PauLie Require Import Pauli PauliBits Collection Graph Sym Orbit MatrixT ParserT CollectionT GraphT GenAllT SymT OrbitT.
+From PauLie Require Import Pauli PauliBits Collection Graph Sym Orbit MatrixT ParserT CollectionT GraphT GenAllT SymT OrbitT OtocLoopT.
 From PauLieRefine Require Import PySem.
 From PauLieGen Require Import AppGen.
 From Coq Require Import Lia ZifyBool.
 Open Scope Z_scope.
 
 Definition verr : exn := EUser "ValueError".
-Definition all_len (n : nat) (l : list pstr) : Prop := forall g, In g l -> length g = n.
-
-Lemma all_len_cons n a l : all_len n (a :: l) <-> length a = n /\ all_len n l.
-Proof. unfold all_len. split; [intros H; split; [apply H; left; reflexivity|intros g Hg; apply H; right; exact Hg]|intros [H1 H2] g [<-|Hg]; auto]. Qed.
-Lemma all_len_nil n : all_len n []. Proof. intros g []. Qed.
-
 Lemma commutes_ok p q : length p = length q -> commutes_code p q = Ok (negb (anti_l p q)).
 Proof. apply commutes_code_ok. Qed.
 Lemma adjoint_ok p q : length p = length q -> adjoint_code p q = Ok (if anti_l p q then Some (smul p q) else None).
@@ -223,18 +217,6 @@ Section Otoc.
 Variables (n : nat) (G : list pstr) (w : pstr).
 Hypothesis HG : all_len n G.
 Hypothesis Hw : length w = n.
-Definition nbrs_l (t : pstr) : list pstr := map (smul t) (filter (anti_l t) G).
-(* the loop of average_otoc with its two counters, on letters *)
-Fixpoint bfs_c (fuel : nat) (queue visited : list pstr) (a s : Z) : option (Z * Z * list pstr) :=
-  match fuel with
-  | O => None
-  | S f => match queue with
-           | [] => Some (a, s, visited)
-           | t :: q => if memS t visited then bfs_c f q visited a s
-                       else bfs_c f (q ++ filter (fun c => negb (memS c (t :: visited))) (nbrs_l t)) (t :: visited) (if anti_l w t then a + 1 else a) (s + 1)
-           end
-  end.
-
 Lemma inner_loop (L : outcome (Z * Z * list pstr * list pstr * pstr * pstr * option pstr) (Z * Z) -> pstr -> outcome (Z * Z * list pstr * list pstr * pstr * pstr * option pstr) (Z * Z)) :
   (forall a s V Q t g0 c0 g, length t = n -> length g = n ->
      L (Next (a, s, V, Q, t, g0, c0)) g = Next (a, s, V, (if anti_l t g && negb (memS (smul t g) V) then Q ++ [smul t g] else Q), t, g, if anti_l t g then Some (smul t g) else None)) ->
@@ -248,15 +230,9 @@ Proof.
   destruct (memS (smul t g) V); cbn [negb]; [reflexivity|]. rewrite <- app_assoc. reflexivity.
 Qed.
 
-Lemma nbrs_l_len t : length t = n -> all_len n (nbrs_l t).
-Proof.
-  intros Ht c Hc. unfold nbrs_l in Hc. apply in_map_iff in Hc. destruct Hc as [g [<- Hg]]. apply filter_In in Hg.
-  rewrite smul_length; [exact Ht|]. rewrite Ht. symmetry. apply HG. apply Hg.
-Qed.
-
 Theorem gen_a_otoc_loop fuel v : length v = n ->
   py_A_average_otoc fuel G v w =
-  match bfs_c fuel [v] [] 0 0 with
+  match bfs_c G w fuel [v] [] 0 0 with
   | Some (a, s, _) => if s =? 0 then FRaised EZeroDivision else FRet (1 * s - 2 * a, s)
   | None => FOutOfFuel
   end.
@@ -272,7 +248,7 @@ Proof.
     - cbn [seqo uncont]. reflexivity. }
   assert (W : forall f queue visited a s t0 g0 c0, all_len n queue -> exists t1 g1 c1,
       while_loop f C B (a, s, visited, queue, t0, g0, c0) =
-      match bfs_c f queue visited a s with Some (a', s', vis) => Next (a', s', vis, [], t1, g1, c1) | None => OutOfFuel end).
+      match bfs_c G w f queue visited a s with Some (a', s', vis) => Next (a', s', vis, [], t1, g1, c1) | None => OutOfFuel end).
   { induction f as [|f IH]; intros queue visited a s t0 g0 c0 Hq; [exists t0, g0, c0; reflexivity|].
     cbn [while_loop bfs_c]. destruct queue as [|t q]; [exists t0, g0, c0; reflexivity|].
     apply all_len_cons in Hq. destruct Hq as [Ht Hq].
@@ -283,76 +259,21 @@ Proof.
       rewrite EB. cbn [uncont]. apply IH. exact Hq.
     - destruct (inner_loop L HL G (if anti_l w t then a + 1 else a) (s + 1) (t :: visited) q t g0 c0 Ht HG) as [g1 [c1 EI]].
       assert (EB : B (a, s, visited, t :: q, t0, g0, c0) =
-                   Next ((if anti_l w t then a + 1 else a), s + 1, t :: visited, q ++ filter (fun c => negb (memS c (t :: visited))) (nbrs_l t), t, g1, c1)).
+                   Next ((if anti_l w t then a + 1 else a), s + 1, t :: visited, q ++ filter (fun c => negb (memS c (t :: visited))) (nbrs_l G t), t, g1, c1)).
       { subst B. cbv beta iota. rewrite EM. cbn [seqo]. unfold set_add. rewrite EM. rewrite commutes_ok by congruence. cbn [res_ok res_val]. rewrite negb_involutive.
         destruct (anti_l w t); cbn [seqo]; unfold pstr in *; rewrite EI; reflexivity. }
       rewrite EB. cbn [uncont]. apply IH. intros c Hc. apply in_app_or in Hc. destruct Hc as [Hc|Hc]; [apply Hq; exact Hc|].
-      apply filter_In in Hc. apply (nbrs_l_len t Ht). apply Hc. }
+      apply filter_In in Hc. apply (nbrs_l_len n G HG t Ht). apply Hc. }
   destruct (W fuel [v] [] 0 0 [] [] None) as [t1 [g1 [c1 EW]]]. { intros c [<-|[]]. exact Hv. }
-  remember (bfs_c fuel [v] [] 0 0) as r eqn:Er. clear Er W. unfold pstr in *. rewrite EW. destruct r as [[[a s] vis]|]; [|reflexivity].
+  remember (bfs_c G w fuel [v] [] 0 0) as r eqn:Er. clear Er W. unfold pstr in *. rewrite EW. destruct r as [[[a s] vis]|]; [|reflexivity].
   cbn [seqo fst snd]. destruct (s =? 0); reflexivity.
 Qed.
 End Otoc.
-
-(* the letter-level loop is the model's BFS over the symplectic encoding (Model/Orbit.v), counters included *)
-Lemma enc_eqb n p q : length p = n -> length q = n -> P_eqb (enc p) (enc q) = pstr_eqb p q.
-Proof.
-  intros Hp Hq. destruct (pstr_eqb p q) eqn:E.
-  - apply pstr_eqb_eq in E. subst q. apply P_eqb_eq. reflexivity.
-  - destruct (P_eqb (enc p) (enc q)) eqn:E'; [|reflexivity]. apply P_eqb_eq in E'. apply enc_inj in E'; [|congruence].
-    subst q. rewrite (proj2 (pstr_eqb_eq p p) eq_refl) in E. discriminate.
-Qed.
-Lemma memO_enc n t V : length t = n -> all_len n V -> memO (enc t) (map enc V) = memS t V.
-Proof.
-  intros Ht HV. unfold memO, memS. induction V as [|x V IH]; [reflexivity|]. apply all_len_cons in HV. destruct HV as [Hx HV].
-  cbn [map existsb]. rewrite (enc_eqb n t x Ht Hx), (IH HV). reflexivity.
-Qed.
-Lemma filter_map_comm {A B} (f : A -> B) (p : B -> bool) l : filter p (map f l) = map f (filter (fun x => p (f x)) l).
-Proof. induction l as [|a l IH]; [reflexivity|]. cbn [map filter]. rewrite IH. destruct (p (f a)); reflexivity. Qed.
 
 Section OtocModel.
 Variables (n : nat) (G : list pstr) (w : pstr).
 Hypothesis HG : all_len n G.
 Hypothesis Hw : length w = n.
-
-Lemma nbrs_enc t : length t = n -> nbrs (map enc G) (enc t) = map enc (nbrs_l G t).
-Proof.
-  intros Ht. unfold nbrs, nbrs_l. rewrite filter_map_comm, !map_map.
-  assert (E : filter (fun x => anti (enc t) (enc x)) G = filter (anti_l t) G).
-  { apply filter_ext_in. intros g Hg. apply enc_anti. rewrite Ht. symmetry. apply HG. exact Hg. }
-  rewrite E. apply map_ext_in. intros g Hg. apply filter_In in Hg. symmetry. apply enc_smul. rewrite Ht. symmetry. apply HG. apply Hg.
-Qed.
-
-Lemma bfs_c_model : forall f q V a s, all_len n q -> all_len n V ->
-  match bfs (map enc G) f (map enc q) (map enc V) with
-  | Some visP => exists vis, map enc vis = visP /\
-       bfs_c G w f q V a s = Some (a + Z.of_nat (cntA (enc w) visP) - Z.of_nat (cntA (enc w) (map enc V)), s + Z.of_nat (length visP) - Z.of_nat (length V), vis)
-  | None => bfs_c G w f q V a s = None
-  end.
-Proof.
-  induction f as [|f IH]; intros q V a s Hq HV; [reflexivity|].
-  cbn [bfs bfs_c]. destruct q as [|t q]; cbn [map].
-  - exists V. split; [reflexivity|]. rewrite map_length. repeat (try lia; f_equal).
-  - apply all_len_cons in Hq. destruct Hq as [Ht Hq]. rewrite (memO_enc n t V Ht HV). destruct (memS t V) eqn:EM.
-    + apply IH; assumption.
-    + rewrite (nbrs_enc t Ht), filter_map_comm.
-      assert (EF : filter (fun x => negb (memO (enc x) (enc t :: map enc V))) (nbrs_l G t) = filter (fun c => negb (memS c (t :: V))) (nbrs_l G t)).
-      { apply filter_ext_in. intros c Hc. f_equal. apply (memO_enc n c (t :: V)); [apply (nbrs_l_len n G HG t Ht); exact Hc|apply all_len_cons; split; assumption]. }
-      rewrite EF, <- map_app. change (enc t :: map enc V) with (map enc (t :: V)).
-      assert (Hq' : all_len n (q ++ filter (fun c => negb (memS c (t :: V))) (nbrs_l G t))).
-      { intros c Hc. apply in_app_or in Hc. destruct Hc as [Hc|Hc]; [apply Hq; exact Hc|]. apply filter_In in Hc. apply (nbrs_l_len n G HG t Ht). apply Hc. }
-      assert (HV' : all_len n (t :: V)) by (apply all_len_cons; split; assumption).
-      specialize (IH (q ++ filter (fun c => negb (memS c (t :: V))) (nbrs_l G t)) (t :: V) (if anti_l w t then a + 1 else a) (s + 1) Hq' HV').
-      destruct (bfs (map enc G) f (map enc (q ++ filter (fun c => negb (memS c (t :: V))) (nbrs_l G t))) (map enc (t :: V))) as [visP|]; [|exact IH].
-      destruct IH as [vis [E1 E2]]. exists vis. split; [exact E1|]. rewrite E2. f_equal. cbn [map length]. unfold cntA. cbn [filter].
-      rewrite (enc_anti w t) by congruence. destruct (anti_l w t); cbn [length]; repeat (try lia; f_equal).
-Qed.
-
-Lemma bfs_c_mono : forall f q V a s a' s' vis, bfs_c G w f q V a s = Some (a', s', vis) -> s <= s'.
-Proof.
-  induction f as [|f IH]; intros q V a s a' s' vis; [discriminate|]. cbn [bfs_c]. destruct q as [|t q]; [intros [= <- <- <-]; lia|].
-  destruct (memS t V); intros H; apply IH in H; lia.
-Qed.
 
 (* average_otoc, for every fuel: the model's BFS decides the outcome; the value is (|orbit| - 2 * #anticommuting) / |orbit| *)
 Theorem gen_a_otoc fuel v : length v = n ->
@@ -364,11 +285,11 @@ Theorem gen_a_otoc fuel v : length v = n ->
 Proof.
   intros Hv. rewrite (gen_a_otoc_loop n G w HG Hw fuel v Hv).
   assert (Hq : all_len n [v]) by (intros c [<-|[]]; exact Hv).
-  pose proof (bfs_c_model fuel [v] [] 0 0 Hq (all_len_nil n)) as M. cbn [map] in M.
+  pose proof (bfs_c_model n G w HG Hw fuel [v] [] 0 0 Hq (all_len_nil n)) as M. cbn [map] in M.
   destruct (bfs (map enc G) fuel [enc v] []) as [visP|]; [|rewrite M; reflexivity].
   destruct M as [vis [E1 E2]]. rewrite E2.
   assert (S1 : 1 <= 0 + Z.of_nat (length visP) - Z.of_nat (@length pstr [])).
-  { destruct fuel as [|f]; [discriminate|]. cbn [bfs_c memS existsb] in E2. apply bfs_c_mono in E2. lia. }
+  { destruct fuel as [|f]; [discriminate|]. cbn [bfs_c memS existsb] in E2. apply (bfs_c_mono n G w Hw) in E2. lia. }
   cbn [length] in *. replace (0 + Z.of_nat (length visP) - Z.of_nat 0 =? 0) with false by lia.
   unfold cntA. cbn [filter length]. repeat (try lia; f_equal).
 Qed.
@@ -381,6 +302,15 @@ Theorem gen_a_otoc_counts n G v w : all_len n G -> length v = n -> length w = n 
 Proof.
   intros HG Hv Hw. rewrite (gen_a_otoc n G w HG Hw _ v Hv). unfold otoc_counts.
   destruct (bfs (map enc G) (fuel_for n (map enc G)) [enc v] []); reflexivity.
+Qed.
+
+(* average_otoc TERMINATES: at the model's fuel it never runs out, for every collection of strings of one length; the value is
+   (s - 2a)/s with 0 <= a <= s and s >= 1 *)
+Theorem gen_a_otoc_terminates n G v w : all_len n G -> length v = n -> length w = n ->
+  exists a s, py_A_average_otoc (fuel_for n (map enc G)) G v w = FRet (Z.of_nat s - 2 * Z.of_nat a, Z.of_nat s) /\ (0 < s)%nat /\ (a <= s)%nat.
+Proof.
+  intros HG Hv Hw. destruct (otoc_counts_total n G v w HG Hv Hw) as [a [s [E [H1 H2]]]]. exists a, s.
+  rewrite (gen_a_otoc_counts n G v w HG Hv Hw), E. auto.
 Qed.
 
 (* ---------- application/fourpoint.py ---------- *)
@@ -494,6 +424,7 @@ Print Assumptions gen_a_commutator_graph.
 Print Assumptions gen_a_otoc_loop.
 Print Assumptions gen_a_otoc.
 Print Assumptions gen_a_otoc_counts.
+Print Assumptions gen_a_otoc_terminates.
 Print Assumptions gen_a_fourpoint.
 Print Assumptions gen_a_charges.
 Print Assumptions gen_a_commutants_exact.
